@@ -372,6 +372,17 @@ def cancel_scripts(quick, counts):
                     for k0, v0, s0 in follow:
                         out.append([['open', k0, 1, s0, v0], c, ['open', kind, 1, side, var]])
                     out.append([c, ['cancel', kind, 1, side, var, at], ['open', kind, 1, side, var]])
+    # the open that is given up is one the peer refuses (unserved PSM; bumble's refusal of an enhanced request lists no
+    # channel at all): nothing of it may stay behind either, and the next open works
+    for (kind, var), n in counts.items():
+        for side in ('c', 'p'):
+            for at in range(n):
+                c = ['cancel', kind, 1, side, var, at, {'refused': True}]
+                out.append([c, ['open', kind, 1, side, var]])
+                if not quick:
+                    out.append([c, c, ['open', kind, 1, side, var]])
+        if kind != 'cl':
+            out.append([['cancel', kind, 1, 'c', var, 1, {'refused': True}] for _ in range(70)] + [['open', kind, 1, 'c', var]])
     # churn: a leaked identifier per cancelled attempt exhausts the 64 dynamic LE CIDs / wraps the identifiers
     for (kind, var), n in counts.items():
         per = var if kind == 'ec' else 1
